@@ -9,8 +9,10 @@ namespace Emboss.Bounds
 
 /-- **No overflow, no truncation, exact result.**  For every expression `e` whose
 annotated IR `t` (the bounds of C05) passes the 64-bit gate
-`_integer_bounds_errors_for_expression`, and every environment whose leaves hold values
-of their physical types: evaluating `e` the way the generated C++ does — every operand
+`_integer_bounds_errors_for_expression`, in which every referenced virtual field's own
+definition passes it too (`vrefsGated`: a reference is a leaf of the referring tree; the
+definition is a top-level expression of the same accepted module), and every environment
+whose leaves hold values of their physical types: evaluating `e` the way the generated C++ does — every operand
 cast to `IntermediateT`, the operation computed in that fixed-width type, the result cast
 to `ResultT`, constant-typed nodes emitted as literals, all operands evaluated eagerly —
 never leaves the range of a type it is cast to or computed in (`overflow`), never finds
@@ -20,9 +22,9 @@ exactly the unbounded-ℤ value `v` — *or* the header does not compile because
 counterexample below: that outcome is real). -/
 theorem C04_no_overflow (ρ : Env) (e : Expr) (t : ATree) (v : CVal)
     (hann : annot e = some t) (hgate : gate t = some [])
-    (henv : EnvOk ρ e) (hev : eval ρ e = some v) :
+    (henv : EnvOk ρ e) (hev : eval ρ e = some v) (hvref : vrefsGated e = true) :
     cppEval ρ e = .ok v ∨ cppEval ρ e = .staticAssert :=
-  no_overflow_aux ρ e t v hann hgate henv hev
+  no_overflow_aux ρ e t v hann hgate henv hev hvref
 
 /-- non-vacuity: `a0 + a1 * 3` over `UInt:8 a0`, `Int:16 a1` passes the gate and is
     evaluated exactly; int32 arithmetic throughout -/
@@ -32,6 +34,20 @@ example :
     (∃ t, annot e = some t ∧ gate t = some []) ∧ eval ρ e = some (.int (-98049)) ∧
       cppEval ρ e = .ok (.int (-98049)) := by
   refine ⟨⟨_, rfl, by decide +kernel⟩, by decide +kernel, by decide +kernel⟩
+
+/-- non-vacuity with a reference to a virtual field: `let v0 = a0 * 300` (`UInt:8 a0`),
+    `let v1 = v0 + 7`: the reference is a leaf of `v1`'s annotated tree, `vrefsGated` holds
+    because `v0`'s own definition passes the gate, and the C++ evaluation is exact.
+    The hypothesis is not vacuous either: `vrefsGated` fails for a reference to the
+    rejected `a0 + 1` over `UInt:64 a0`. -/
+example :
+    let v0 : Expr := .bin .mul (.ileaf 0 .uint (some 8)) (.const 300)
+    let e : Expr := .bin .add (.vref v0) (.const 7)
+    let ρ : Env := ⟨fun _ => 255, fun _ => false, fun _ => 0⟩
+    (∃ t, annot e = some t ∧ gate t = some []) ∧ vrefsGated e = true ∧
+      cppEval ρ e = .ok (.int 76507) ∧
+      vrefsGated (.vref (.bin .add (.ileaf 0 .uint (some 64)) (.const 1))) = false := by
+  refine ⟨⟨_, rfl, by decide +kernel⟩, by decide +kernel, by decide +kernel, by decide +kernel⟩
 
 /-- the gate is what makes it true: `a0 + 1` over `UInt:64 a0` is rejected, and with the
     gate ignored the C++ evaluation overflows (`notype`: no C++ type holds 0 … 2^64) -/
